@@ -11,11 +11,12 @@ import sys, threading, random
 
 
 class Baton:
-    def __init__(self, n, traced_files, seed=None, p=0.05, schedule=None, max_points=400000):
+    def __init__(self, n, traced_files, seed=None, p=0.05, schedule=None, max_points=400000, p_by_file=None):
         self.n = n
         self.traced = set(traced_files)
         self.rng = random.Random(seed) if schedule is None else None
         self.p = p
+        self.p_by_file = p_by_file or {}     # file name -> switch probability at the points in that file
         self.replay = None if schedule is None else [tuple(x) for x in schedule]
         self.ri = 0
         self.events = [threading.Event() for _ in range(n)]
@@ -43,7 +44,7 @@ class Baton:
             else:
                 return
         else:
-            if self.rng.random() >= self.p:
+            if self.rng.random() >= self.p_by_file.get(filename, self.p):
                 return
             cand = [i for i in range(self.n) if self.alive[i]]
             nx = cand[self.rng.randrange(len(cand))]
